@@ -379,6 +379,29 @@ func lenAtLeast(r *Run, info *types.Info, fd *ast.FuncDecl, at ast.Node, name st
 			return true
 		}
 	}
+	// short-circuit order: `len(x) > 0 && x[0] …` and `len(x) == 0 || x[0] …`
+	shortCircuit := false
+	var stack []ast.Node
+	ast.Inspect(fd.Body, func(y ast.Node) bool {
+		if y == nil {
+			stack = stack[:len(stack)-1]
+			return true
+		}
+		stack = append(stack, y)
+		if y == at {
+			for _, a := range stack {
+				if be, ok := a.(*ast.BinaryExpr); ok && be.Y.Pos() <= at.Pos() && at.End() <= be.Y.End() {
+					if (be.Op == token.LAND && implies(be.X, false)) || (be.Op == token.LOR && implies(be.X, true)) {
+						shortCircuit = true
+					}
+				}
+			}
+		}
+		return true
+	})
+	if shortCircuit {
+		return true
+	}
 	found := false
 	ast.Inspect(fd.Body, func(y ast.Node) bool {
 		switch t := y.(type) {
